@@ -4,6 +4,7 @@
 import OptreeModel.Model.Compare
 import OptreeModel.Lemmas.EncPrefix
 import OptreeModel.Lemmas.EncFlatten
+import OptreeModel.Lemmas.UpToPrefix
 
 namespace Optree
 
@@ -158,6 +159,76 @@ theorem C07_is_prefix_of_flatten (cfg : Cfg) (t u : PyObj) (ht : t.wf = true) (h
   refine ⟨a, b, ha, hb, la, lb, ?_⟩
   rw [ea, eb, C07_is_prefix_refines a b ha hb]
   simp [STree.spec]
+
+/-! ### `flatten_up_to` and its agreement with `is_prefix`
+
+`STree.upTo` (Lemmas/EncUpTo.lean) matches a tree against a shape by structural recursion and returns
+the sub-trees sitting at the shape's leaves; `shapeOf` (Lemmas/ShapeOf.lean) is the shape `flatten`
+assigns to a tree. -/
+
+/-- **`flatten_up_to` on an encoding is the structural match** (agenda machine of `FlattenUpTo`,
+reversed array, children pushed in reverse), for every shape and every tree -/
+theorem C07_flatten_up_to_refines (reg : Registry) (a : STree) (ha : a.wf = true) (nil : Bool)
+    (ns : String) (t : PyObj) : flattenUpTo reg (a.spec nil ns) t = a.upTo reg nil ns t :=
+  flattenUpTo_enc reg a ha nil ns t
+
+/-- on success there is exactly one result per leaf of the shape -/
+theorem C07_flatten_up_to_count (reg : Registry) (a : STree) (ha : a.wf = true) (nil : Bool)
+    (ns : String) (t : PyObj) (ls : List PyObj) (h : flattenUpTo reg (a.spec nil ns) t = .ok ls) :
+    ls.length = (a.spec nil ns).numLeaves := by
+  rw [C07_flatten_up_to_refines reg a ha] at h
+  rw [STree.spec_numLeaves]
+  exact STree.upTo_length reg nil ns a t ls h
+
+/-- **matching a tree against a shape succeeds exactly when the shape is a prefix of the tree's own
+shape** — for every shape that fits the registry (`STree.good`: what `flatten` and the constructors
+build) and every well-formed tree; dict kinds interchangeable, children paired by key, deques
+regardless of `maxlen`, registrations identical -/
+theorem C07_up_to_iff_prefix (cfg : Cfg) (s : Bool) (a : STree) (ha : a.wf = true)
+    (hg : a.good cfg.reg cfg.ns = true) (t : PyObj) (ht : t.wf = true) :
+    okB (flattenUpTo cfg.reg (a.spec cfg.noneIsLeaf cfg.ns) t) = a.prefixB (shapeOf cfg s t) := by
+  rw [C07_flatten_up_to_refines cfg.reg a ha]
+  exact upTo_iff_prefix cfg s a ha hg t ht
+
+theorem flatten_ns (cfg : Cfg) (t : PyObj) (ls : List PyObj) (sp : Spec) (h : flatten cfg t = .ok (ls, sp)) :
+    sp.ns = cfg.ns ∨ sp.ns = "" := by
+  unfold flatten at h
+  simp only at h
+  split at h
+  · simp at h
+  · simp only [Except.ok.injEq, Prod.mk.injEq] at h
+    obtain ⟨_, h2⟩ := h
+    subst h2
+    simp only
+    split <;> simp
+
+/-- **the two engine implementations of the prefix test agree**: for a prefix treespec made by
+flattening `p` and any tree `t` (same configuration, no predicate), `flatten_up_to(p_spec, t)` succeeds
+iff `p_spec.is_prefix(tree_structure(t))` -/
+theorem C07_flatten_up_to_agrees_with_is_prefix (cfg : Cfg) (hp : cfg.pred = Option.none) (p t : PyObj)
+    (hpw : p.wf = true) (htw : t.wf = true) (lp lt : List PyObj) (sp st : Spec)
+    (h1 : flatten cfg p = .ok (lp, sp)) (h2 : flatten cfg t = .ok (lt, st)) (hns : sp.ns = cfg.ns) :
+    okB (flattenUpTo cfg.reg sp t) = true ↔ isPrefix sp st false = .ok true := by
+  obtain ⟨e1, _⟩ := flatten_shapeOf cfg hp p hpw lp sp h1
+  obtain ⟨e2, _⟩ := flatten_shapeOf cfg hp t htw lt st h2
+  obtain ⟨w1, g1⟩ := wg cfg (!cfg.insertionOrdered) p hpw
+  obtain ⟨w2, _⟩ := wg cfg (!cfg.insertionOrdered) t htw
+  have hc : nsCompatible sp.ns st.ns = true := by
+    rcases flatten_ns cfg t lt st h2 with h | h <;> simp [nsCompatible, hns, h]
+  rw [e1, e2, hns]
+  rw [C07_up_to_iff_prefix cfg (!cfg.insertionOrdered) _ w1 g1 t htw, C07_is_prefix_refines _ _ w1 w2]
+  simp only [STree.spec, hns] at hc ⊢
+  simp [hc]
+
+/-- in the global namespace the side condition on the recorded namespace is void -/
+theorem C07_flatten_up_to_agrees_with_is_prefix_global (cfg : Cfg) (hp : cfg.pred = Option.none)
+    (hns : cfg.ns = "") (p t : PyObj) (hpw : p.wf = true) (htw : t.wf = true) (lp lt : List PyObj)
+    (sp st : Spec) (h1 : flatten cfg p = .ok (lp, sp)) (h2 : flatten cfg t = .ok (lt, st)) :
+    okB (flattenUpTo cfg.reg sp t) = true ↔ isPrefix sp st false = .ok true := by
+  apply C07_flatten_up_to_agrees_with_is_prefix cfg hp p t hpw htw lp lt sp st h1 h2
+  rcases flatten_ns cfg p lp sp h1 with h | h
+  · exact h
+  · rw [h, hns]
 
 /-- non-vacuity, on the witness of the repaired defect: `OD(a=OD(x=*,y=*), b=*)` is a prefix of
 `OD(b=*, a=OD(y=(*,), x=*))` (outer and inner dict both re-ordered, unequal sub-tree sizes) -/
